@@ -40,8 +40,9 @@ class Recorder:
     """records, for every call `pattern.get_mapping(mol, ...)` on a pattern of the three rule collections, the molecule
     as it was at that moment and the mappings the generator yielded (lazily, exactly as the engine consumed them)"""
 
-    def __init__(self, observe_too=False):
+    def __init__(self, observe_too=False, eager=False):
         self.observe_too = observe_too
+        self.eager = eager
         from chython.containers import QueryContainer
         from chython.algorithms.standardize import molecule as engine
         self.pid = {}
@@ -73,7 +74,10 @@ class Recorder:
             stage = {1: 2, 2: 3}.get(c, 1 if (0, i) in rec.seen_double else 0)
             if c == 0:
                 rec.seen_double.add((0, i))
-            entry = {'c': c, 'ridx': i, 'stage': stage if rec.stage is None else rec.stage, 'g0': rec.snap, 'maps': [], 'obs': rec.obs, 'rings': rec.rings, 'natoms': rec.natoms}
+            # what the matcher yields on the molecule as it is NOW (the Python fallback matcher is lazy: what it yields later depends on the
+            # patches the engine makes in between; the compiled matcher works on a snapshot)
+            eager = [list(mp.items()) for mp in rec.orig(self, other, **kw)] if rec.eager else None
+            entry = {'eager': eager, 'c': c, 'ridx': i, 'stage': stage if rec.stage is None else rec.stage, 'g0': rec.snap, 'maps': [], 'obs': rec.obs, 'rings': rec.rings, 'natoms': rec.natoms}
             rec.rec.append(entry)
             for mp in rec.orig(self, other, **kw):
                 entry['maps'].append(list(mp.items()))
@@ -247,7 +251,7 @@ def corr_engine(ck, rng):
             return
         if m is None:
             return
-        with Recorder() as R:
+        with Recorder(eager=True) as R:
             try:
                 log, rec = R.run(lambda: m.standardize(logging=True, fix_tautomers=ft, _fix_stereo=False))
             except Exception as e:
@@ -272,18 +276,20 @@ def corr_engine(ck, rng):
                  'spec': f'step_spec {e["c"]} {e["ridx"]} {e["g0"]} {maps_term(e["maps"])}'})
         # the matcher specification: the set of yielded mappings == the set of embeddings (matched rules, and a sample of unmatched ones)
         for k, e in enumerate(rec):
-            if e['maps'] or hash_pick(label, k, 'unmatched') % 16 == 0:
-                if len(e['maps']) <= 48:
-                    mcases.append(f'matches_ok {e["c"]} {e["ridx"]} {e["rings"]} {e["g0"]} {maps_term(e["maps"])}')
-                    mmeta.append({'kind': 'matcher', 'tag': tag, 'mol': label, 'rule': f'{COLL[e["c"]]}[{e["ridx"]}]', 'yielded': len(e['maps'])})
-                    ck.count('matcher:rule ' + ('matched' if e['maps'] else 'not matched'))
+            if e['eager'] or hash_pick(label, k, 'unmatched') % 40 == 0:
+                if len(e['eager']) <= 48:
+                    mcases.append(f'matches_ok {e["c"]} {e["ridx"]} {e["rings"]} {e["g0"]} {maps_term(e["eager"])}')
+                    mmeta.append({'kind': 'matcher', 'tag': tag, 'mol': label, 'rule': f'{COLL[e["c"]]}[{e["ridx"]}]', 'yielded': len(e['eager'])})
+                    ck.count('matcher:rule ' + ('matched' if e['eager'] else 'not matched'))
+                    if len(e['eager']) != len(e['maps']):
+                        ck.count('matcher:lazy fallback matcher yields another number of mappings than on the unpatched molecule')
         pre = next((list(mt) for mt, r, text in log if r == -1 and text == 'resonance fixed'), [])
         fixed = next((sorted(mt) for mt, r, text in log if r == -1 and text == 'standardized atoms'), [])
         if any(text.startswith('bad charge') for _, _, text in log):
             ck.count('engine:bad charge formed')
         add(f'passes_ok {b(ft)} {table_term(rec)} {zl(pre)} {rec[0]["g0"]} {final} {rlog_term(log)} {zl(fixed)}',
             {'kind': 'standardize()', 'tag': tag, 'mol': label, 'fix_tautomers': ft})
-        if rec[0]['natoms'] <= 14 and all(len(e['maps']) <= 1 for e in rec) and tag in ('doc', 'extra'):
+        if rec[0]['natoms'] <= 14 and all(len(e['eager']) <= 1 for e in rec) and tag in ('doc', 'extra'):
             mcases.append(f'passes_bf_ok {b(ft)} {zl(pre)} {rec[0]["g0"]} {final} {zl(fixed)}')
             mmeta.append({'kind': 'standardize() with the specification matcher', 'tag': tag, 'mol': label, 'fix_tautomers': ft})
             ck.count('matcher:whole standardize() inside Coq')
@@ -738,9 +744,6 @@ def check_op(ck, lim, name, smi, make, renumber=True, fixed_corpus=False):
             else:
                 lim.counterexample(f'charge or H {name}', f'composition:{name}:{smi}', f'{code} changes net charge or hydrogen count of a valence-valid molecule', inp,
                                    obs, exp, 'sum of charges / implicit + explicit hydrogens', replay_py=rp)
-        if after['radicals'] % 2 != before['radicals'] % 2 and not (dq or dh):
-            lim.counterexample(f'radical parity {name}', f'radicals:{name}:{smi}', f'{code} changes the parity of the radical count', inp,
-                               after['radicals'], before['radicals'], 'number of radical atoms mod 2', replay_py=rp)
     first = m.copy()
     # idempotence: a second application changes nothing (molecules compared; the return value is not a change indicator)
     try:
@@ -883,9 +886,9 @@ def search(ck, rng):
                                replay_py=f'from chython import smiles\nm = smiles({raw!r}); m.standardize(); print(m, smiles({want!r}))')
     # (2) all operations on valence-valid corpus / decorated / hand-made molecules
     pool = []
-    for s in corpus.sample(lip, 35 if quick else 700, ck.seed, 'c14-search'):
+    for s in corpus.sample(lip, 35 if quick else 250, ck.seed, 'c14-search'):
         pool.append(('corpus', s, None))
-    for k, s in enumerate(corpus.sample(lip, 35 if quick else 700, ck.seed, 'c14-search-dec')):
+    for k, s in enumerate(corpus.sample(lip, 35 if quick else 250, ck.seed, 'c14-search-dec')):
         pool.append(('decorated', s, k))
     for tag, s in mol_inputs(ck, rng):
         pool.append((tag, s, None))
@@ -930,7 +933,7 @@ def search(ck, rng):
         if valid:
             inverse_pair(ck, lim, s, make)
     # (3) tautomer enumeration
-    tpool = [('corpus', s) for s in corpus.sample(lip, 40 if quick else 500, ck.seed, 'c14-taut')] + [('hand', s) for s in TAUT_SMILES]
+    tpool = [('corpus', s) for s in corpus.sample(lip, 40 if quick else 300, ck.seed, 'c14-taut')] + [('hand', s) for s in TAUT_SMILES]
     for tag, s in tpool:
         check_tautomers(ck, lim, s, tag)
     ck.extra['search_failures'] = dict(lim.seen)
